@@ -113,7 +113,7 @@ class AnyOf:
 class Path:
     def __init__(self):
         self.conds = []        # list of z3 Bool (path condition)
-        self.facts = []        # extra quantified facts (from `not np.any(mask)`)
+        self.facts = []        # definitional facts about fresh symbols (np.max/np.min results)
         self.safety = []       # (kind, lineno, guard(list of conds), formula)
         self.result = None
         self.exc = None
@@ -182,7 +182,7 @@ class Evaluator:
             else:
                 j = fresh("k")
                 body = z3.Implies(B(band(j >= 0, compare("<", j, m.n))), B(bnot(m.f(j))))
-                self.path.facts.append(z3.ForAll([j], body))
+                # path-specific: goes into the path condition only (never a global assumption)
                 self.path.conds.append(z3.ForAll([j], body))
             return d
         if type(cond).__name__ == "NotAny":
@@ -1277,6 +1277,8 @@ class Evaluator:
                 return Opaque("dtype:" + getattr(obj, "kind", "f"))
             if attr == "size":
                 return obj.n
+            if attr == "values" and getattr(obj, "is_series", False):
+                return obj
             if attr == "T":
                 raise Unsupported("transpose")
             return BoundMethod(obj, attr)
